@@ -334,7 +334,9 @@ def gen_history_case(rng, i, nested=False, nops=None):
         via_import = "lib" in path
         t = gen_tmpl(rng, cfg, level, path, versions[path], flat, via_import, pools)
         ops.append(["write", ROOT + "/" + path, t, stamp[0]])
-        if path in files and not cfg.get("root") and rng.random() < 0.12:
+        if path not in files and versions[path] == 1 and rng.random() < 0.12:
+            ops[-1].append("symlink")       # the file is reached through a symbolic link; edits change the target
+        elif path in files and not cfg.get("root") and rng.random() < 0.12:
             # replaced by a file with the OLD modification time (cp -p, rsync -t): vinegar's loader hashes ctime, inode
             # and size as well; with root_dir Jinja2's own loader compares the mtime alone (documented there)
             ops[-1].append("keep_mtime")
